@@ -556,6 +556,9 @@ def run(ck, F):
     # reads of the first unit of a word that no emptiness test dominates
     import firstunit as _firstunit
     _firstunit.rule(ck, F, 'C19')
+    # no accessor follows a pointer that may be null (a read through a null pointer is a read outside live objects)
+    import borrow as _borrow
+    _borrow.borrow(ck, F, 'C14', 'C19', {'no-unchecked-deref'})
 
     # the pool chain after an allocation: nothing that was reachable is lost, everything new is reachable
     R7 = ck.rule('C19.chain-preserved', 'on every path of arena::allocate (and of the constructor) the chain mem -> previous -> ... '
